@@ -118,6 +118,48 @@ fn strat(bits: usize) -> BoxedStrategy<Case> {
     prop_oneof![4 => indep, 4 => sized, 4 => constructed, 4 => copy_top, 2 => near, 1 => zero_div, 3 => recip_tie].boxed()
 }
 
+/// Dense sampling of single-limb divisors through the public API at 128 bits: one case = one
+/// batch of 2048 divisors whose normalised form lies in one of the 256 rows of the reciprocal
+/// lookup table (top 9 bits), drawn by a fixed xorshift sequence from (row, batch); each divides
+/// three numerators, the oracle is u128 arithmetic. An error in the reciprocal that only shows for
+/// a ~10^-5 fraction of one row (a table entry without slack) needs this density.
+fn enum_dense_part(part: u64, batches: u64, f: &mut dyn FnMut(&Case) -> R) -> R {
+    for row in (256u64..512).filter(|r| r % 16 == part) {
+        for b in 0..batches {
+            f(&Case::new().n(row).n(b))?;
+        }
+    }
+    Ok(())
+}
+
+fn body_dense(c: &Case, rec: &mut Rec) -> R {
+    type U = Uint<128, 2>;
+    let (row, batch) = (c.n[0], c.n[1]);
+    let mut x: u64 = (row << 32 | batch).wrapping_mul(0xD134_2543_DE82_EF95) | 1;
+    rec.nontrivial(&(row, batch));
+    rec.class("gen:dense_single_limb_divisors");
+    if batch == 0 {
+        rec.sample(|| json!({"rule": "dense single-limb divisors", "reciprocal_table_row": row, "divisors_per_batch": 2048}));
+    }
+    rec.eval(3 * 2048);
+    for i in 0..2048u64 {
+        x ^= x << 13;
+        x ^= x >> 7;
+        x ^= x << 17;
+        let norm = row << 55 | x >> 9;
+        // the divisor as the user writes it: normalised, or shifted down by up to 40 bits
+        let d = norm >> (i % 8 * 5);
+        let ns = [1u128 << 64, u128::MAX, (x as u128) << 64 | (x.rotate_left(17) as u128)];
+        for n in ns {
+            let (q, r) = U::from(n).div_rem(U::from(d));
+            if q != U::from(n / d as u128) || r != U::from(n % d as u128) {
+                return rec.fail("div_rem", "value_wrong", format!("{n:#x} / {d:#x}: got ({q:#x}, {r:#x}) expected ({:#x}, {:#x})", n / d as u128, n % d as u128));
+            }
+        }
+    }
+    Ok(())
+}
+
 fn body<const B: usize, const L: usize>(c: &Case, rec: &mut Rec) -> R {
     type U<const B: usize, const L: usize> = Uint<B, L>;
     let n: U<B, L> = mk(&c.l[0]);
@@ -215,7 +257,7 @@ fn body<const B: usize, const L: usize>(c: &Case, rec: &mut Rec) -> R {
 fn main() {
     let spec = PropSpec {
         id: "C03",
-        rule_text: "cases (n,d) per width from 7 generator classes (divisors whose normalised leading 128 bits are solved onto the tie of the 3-by-2 reciprocal's last correction step, with limb-aligned power-of-two numerators; n = d + {-1,0,1} and the largest multiple of d that fits + {-1,0,1}; independent alphabet values; divisors of every limb length with 0..63 leading zero bits; n=q*d+r built from extreme q,d,r; numerators copying the divisor's top limbs with perturbed lower limbs; d=0) plus exhaustive enumeration of all pairs for BITS<=8 and of all pairs of values whose limbs come from {0,1,2,2^63-1,2^63,2^63+1,MAX-1,MAX} (2-3 limbs) or {0,1,2^63,MAX-1,MAX} (4 limbs) at 8 widths. / and % through all six operator shapes. Oracle: num-bigint quotient/remainder. Non-trivial: d!=0, quotient!=0 and d not a power of two; distinct by (rule,width,n,d).",
+        rule_text: "cases (n,d) per width from 7 generator classes (divisors whose normalised leading 128 bits are solved onto the tie of the 3-by-2 reciprocal's last correction step, with limb-aligned power-of-two numerators; n = d + {-1,0,1} and the largest multiple of d that fits + {-1,0,1}; independent alphabet values; divisors of every limb length with 0..63 leading zero bits; n=q*d+r built from extreme q,d,r; numerators copying the divisor's top limbs with perturbed lower limbs; d=0) plus exhaustive enumeration of all pairs for BITS<=8 and of all pairs of values whose limbs come from {0,1,2,2^63-1,2^63,2^63+1,MAX-1,MAX} (2-3 limbs) or {0,1,2^63,MAX-1,MAX} (4 limbs) at 8 widths. / and % through all six operator shapes. Rule div_dense_single_limb: 2^18 single-limb divisors per row of the reciprocal lookup table (normalised or shifted down), three numerators each, at 128 bits against u128 arithmetic. Oracle: num-bigint quotient/remainder. Non-trivial: d!=0, quotient!=0 and d not a power of two; distinct by (rule,width,n,d).",
         assumptions: vec![
             "num-bigint division is correct (oracle)",
             "x86-64 little-endian target only",
@@ -225,10 +267,15 @@ fn main() {
     };
     main_with(
         spec,
-        |jobs, _| {
+        |jobs, args| {
             reg_enum!(jobs, "div_all_pairs", enum_pairs, body; [0, 1, 2, 3, 4, 5, 6, 7, 8]);
             reg_enum!(jobs, "div_limb_alphabet", enum_alphabet_pairs, body; [65, 127, 128, 129, 190, 192, 250, 256]);
             w_all_wide!(reg_gen!(jobs, "div", 25000, strat, body;));
+            // 256 rows x 128 batches x 2048 divisors x 3 numerators = 2e8 divisions, in 16 jobs
+            let batches: u64 = if args.tier == "thorough" { 1024 } else { 128 };
+            for part in 0..16u64 {
+                jobs.fixed_list("div_dense_single_limb", 128, move |f| enum_dense_part(part, batches, f), body_dense);
+            }
         },
         |_| Map::new(),
     );
